@@ -32,6 +32,39 @@ pub const OPS: [Op; 14] = [
 ];
 
 /// (initial size, growth policy) applied to every table
+/// constants of every interned kind, with near-misses: equal numbers of different kind, the same small number as a
+/// number / char / byte / symbol / expression / external, and texts and byte lists that share a long prefix and
+/// differ only in their last (or first) item, at lengths around powers of two
+pub fn constant_pool() -> Vec<V> {
+    use garnish_lang_traits::GarnishDataType as T;
+    let mut p: Vec<V> = vec![
+        V::Int(0), V::Int(1), V::Int(-1), V::Int(3), V::Int(97), V::Int(i32::MAX), V::Int(i32::MIN),
+        V::Float(0.0), V::Float(3.0), V::Float(2.5), V::Float(97.0), V::Float(1e10),
+        V::Char('a'), V::Char('b'), V::Char('é'), V::Byte(0), V::Byte(97),
+        V::Sym(0), V::Sym(97), V::Sym(u64::MAX), V::Expr(0), V::Expr(97), V::External(0), V::External(97),
+        V::Type(T::Unit), V::Type(T::Number),
+        text(""), text("a"), text("b"), text("ab"), V::Bytes(vec![]), V::Bytes(vec![97]), V::Bytes(vec![98]), V::Bytes(vec![97, 98]),
+    ];
+    for l in [7usize, 8, 9, 31, 32, 33, 63, 64, 65, 127, 128, 129, 255, 256, 257] {
+        for last in ['a', 'b'] {
+            let mut t: Vec<char> = vec!['x'; l];
+            t.push(last);
+            p.push(V::Text(t));
+            let mut b: Vec<u8> = vec![120; l];
+            b.push(last as u8);
+            p.push(V::Bytes(b));
+        }
+    }
+    for l in [64usize, 256] {
+        for first in ['a', 'b'] {
+            let mut t: Vec<char> = vec![first];
+            t.extend(vec!['x'; l]);
+            p.push(V::Text(t));
+        }
+    }
+    p
+}
+
 pub fn configs() -> Vec<(usize, ReallocationStrategy, &'static str)> {
     vec![
         (0, ReallocationStrategy::FixedSize(1), "initial 0, +1"),
@@ -353,7 +386,8 @@ impl Check for C15Check {
          Phase all-histories: every history of length <= H (H=5 quick, 6 thorough) on BasicGarnishData for each of 8 growth configurations applied to all tables (initial size 0/1/2 x growth +1 / +2 / x2 from a non-zero size), plus every history of length H+1 for the two tightest configurations (initial 0 +1; initial 1 x2); \
          phase random: histories of 50..400 operations on SimpleGarnishData and on BasicGarnishData with default and with tape-chosen per-table settings. \
          Oracle: an abstract model of independent growable tables; after EVERY operation every address ever returned reads back (type and content through the getters) as in the model, the instruction and jump tables match index by index, registers match in order (frame markers accounted for), the current value and symbol names match; pops return what the model says. \
-         On SimpleGarnishData additionally: adding a bit-identical constant again returns the same address, a different constant a different address. Non-trivial = a history in which at least two different tables grew while others held data; distinct = distinct (history, configuration)."
+         On SimpleGarnishData additionally: adding a bit-identical constant again returns the same address, a different constant a different address. \
+         Phase constant-pairs: every ordered pair (A, B) of a pool of constants of every interned kind (numbers incl. the same value as integer and float, the same small number as number / char / byte / symbol / expression / external, types, texts and byte lists of lengths around 8..256 that differ only in their last or first item) added as A, B, A, B to a fresh object of either implementation: all four read back as added; on SimpleGarnishData equal constants share one address, different ones never do. Non-trivial = a history in which at least two different tables grew while others held data; distinct = distinct (history, configuration)."
             .to_string()
     }
     fn assumptions(&self) -> Vec<String> {
@@ -369,6 +403,7 @@ impl Check for C15Check {
             Phase::exhaustive("all-histories", hist_count(h) * 8).with_chunk(2048),
             Phase::exhaustive("longer-histories-tight-configs", 14u64.pow(h as u32 + 1) * 2).with_chunk(4096),
             Phase::random("random-long-histories", tier.pick(6_000, 150_000), 900).with_min_tape(120).with_chunk(64),
+            Phase::exhaustive("constant-pairs", { let n = constant_pool().len() as u64; n * n }).with_chunk(128),
         ]
     }
     fn run(&self, tier: Tier, phase: usize, input: &Input, ctx: &mut CaseCtx) {
@@ -397,6 +432,66 @@ impl Check for C15Check {
                     ctx.nontrivial(fnv(format!("L{}|{}", i, name).as_bytes()));
                 }
                 ctx.class("exhaustive-history");
+            }
+            (3, Input::Index(i)) => {
+                // A, B, A, B: in SimpleGarnishData equal constants share an address and different ones do not; in both
+                // implementations all four read back as what was added
+                let pool = constant_pool();
+                let n = pool.len() as u64;
+                let (ia, ib) = ((*i / n) as usize, (*i % n) as usize);
+                let (a, b) = (&pool[ia], &pool[ib]);
+                let short = |v: &V| {
+                    let s = format!("{}", v);
+                    if s.chars().count() > 24 { format!("{}…({} items)", s.chars().take(12).collect::<String>(), s.chars().count()) } else { s }
+                };
+                ctx.render(|| format!("add {} {}, {} {}, then both again", a.type_name(), short(a), b.type_name(), short(b)));
+                ctx.class("constant-pair");
+                ctx.nontrivial(fnv(format!("cp{}", i).as_bytes()));
+                let key = format!("{}-vs-{}", a.type_name(), b.type_name());
+                fn four<D: GD>(d: &mut D, a: &V, b: &V) -> Result<[usize; 4], String> {
+                    let a1 = crate::model::value::build_value(d, a)?;
+                    let b1 = crate::model::value::build_value(d, b)?;
+                    let a2 = crate::model::value::build_value(d, a)?;
+                    let b2 = crate::model::value::build_value(d, b)?;
+                    Ok([a1, b1, a2, b2])
+                }
+                ctx.sub_evals += 2;
+                {
+                    let mut d = new_simple();
+                    match guard("store", || four(&mut d, a, b)) {
+                        Err(p) => ctx.fail(format!("store-panic@{}", p.loc), format!("Simple: {}", p.msg)),
+                        Ok(Err(e)) => ctx.fail(format!("constant-not-addable:Simple:{}", key), e),
+                        Ok(Ok([a1, b1, a2, b2])) => {
+                            if a1 != a2 || b1 != b2 {
+                                ctx.fail(format!("interning:equal-constant-gets-new-address:{}", key), format!("Simple: first added at {} / {}, added again at {} / {}", a1, b1, a2, b2));
+                            }
+                            if ia != ib && a1 == b1 {
+                                ctx.fail(format!("interning:different-constants-share-an-address:{}", key), format!("Simple: both live at {}", a1));
+                            }
+                            for (addr, v) in [(a1, a), (b1, b), (a2, a), (b2, b)] {
+                                let r = readback(&d, addr);
+                                if !same(&r, v) {
+                                    ctx.fail(format!("interning:constant-reads-back-as-another:{}", key), format!("Simple: address {} reads back {} {}", addr, r.type_name(), short(&r)));
+                                }
+                            }
+                        }
+                    }
+                }
+                {
+                    let mut d = new_basic();
+                    match guard("store", || four(&mut d, a, b)) {
+                        Err(p) => ctx.fail(format!("store-panic@{}", p.loc), format!("Basic: {}", p.msg)),
+                        Ok(Err(e)) => ctx.fail(format!("constant-not-addable:Basic:{}", key), e),
+                        Ok(Ok(addrs)) => {
+                            for (addr, v) in addrs.iter().zip([a, b, a, b]) {
+                                let r = readback(&d, *addr);
+                                if !same(&r, v) {
+                                    ctx.fail(format!("value-changed:constant:{}", key), format!("Basic: address {} reads back {} {}", addr, r.type_name(), short(&r)));
+                                }
+                            }
+                        }
+                    }
+                }
             }
             (2, Input::Tape(t)) => {
                 let mut t = Tape::new(t);
